@@ -267,7 +267,8 @@ def check_root(root, got):
 def root_float(root):
     """Approximate float of the expected value (for messages only)."""
     try:
-        return math.copysign(abs(float(root.a)) ** (root.num / root.den), float(root.a))
+        neg = root.a < 0 and root.den == 1 and root.num % 2 == 1
+        return (-1.0 if neg else 1.0) * abs(float(root.a)) ** (root.num / root.den)
     except (OverflowError, ZeroDivisionError, ValueError):
         return float("nan")
 
